@@ -35,8 +35,14 @@ Cfg_3own == { Cfg(3, <<>>, << <<0>>, <<1>>, <<2>> >>, <<p, q, r>>, <<<<>>, <<>>,
 P_tid == << <<AL, DE(0)>>, <<AL, FE, DE(0)>>, <<AL, DE(0)>>, <<AL, DE(0)>> >>
 Cfg_tid == { [kind |-> "tid", n |-> 0, fr |-> <<>>, own |-> NoOwn(P_tid), prog |-> P_tid, after |-> <<<<>>, <<>>, <<1>>, <<1, 2>>>>, nb |-> 0] }
 
-Cfg_quick == Cfg_aba \cup Cfg_3own \cup Cfg_tid
-Cfg_thorough == Cfg_all2 \cup { WithObserver(Cfg(2, <<1, 0>>, NoOwn(P_aba3b), P_aba3b, NoAfter(P_aba3b))) }
+P_tid3 == << <<AL, DE(0)>>, <<AL, FE, DE(0)>>, <<AL, DE(0)>> >>
+Cfg_tid3 == { [kind |-> "tid", n |-> 0, fr |-> <<>>, own |-> NoOwn(P_tid3), prog |-> P_tid3, after |-> <<<<>>, <<>>, <<1>>>>, nb |-> 0] }
+\* two threads, each holds one value, one value free: push / pop / mint races
+Cfg_2own == { Cfg(3, <<2>>, << <<0>>, <<1>> >>, <<p, q>>, <<<<>>, <<>>>>) :
+                p \in {<<DE(0), AL, AL>>, <<AL, DE(0), DE(0)>>}, q \in {<<DE(0), AL>>, <<AL, DE(1)>>} }
+
+Cfg_quick == Cfg_aba \cup Cfg_tid3 \cup Cfg_2own
+Cfg_aba3b == { WithObserver(Cfg(2, <<1, 0>>, NoOwn(P_aba3b), P_aba3b, NoAfter(P_aba3b))) }
 
 \* weak memory: the relaxed free_next link against the acquire head
 P_wm2 == << <<AL, AL>>, <<AL, AL, DE(0)>> >>
@@ -48,6 +54,17 @@ Cfg_wm3 == { Cfg(2, <<1, 0>>, NoOwn(P_aba3), P_aba3, NoAfter(P_aba3)) }
 Next == \/ \E t \in Thr : IdsStep(t, MOf)
         \/ (AllDone /\ UNCHANGED vars)
 Spec == Init /\ [][Next]_vars
+
+\* witness generation (spec -> code): a pop that has read head and link while the same value was popped,
+\* pushed again and the link changed -- the state in which only the version tag protects the stack (ABA)
+AbaWindow == \E t \in Thr : /\ pc[t] = "a_cas"
+                            /\ LastVal(ms, HeadLoc).value = L[t].cur.value
+                            /\ LastVal(ms, HeadLoc).version # L[t].cur.version
+                            /\ LastVal(ms, FNext(L[t].cur.value)) # L[t].nh
+NoAbaWindow == ~AbaWindow
+Cfg_w2 == { Cfg(2, <<1, 0>>, NoOwn(P_aba2), P_aba2, NoAfter(P_aba2)) }
+Cfg_w3 == { Cfg(2, <<1, 0>>, NoOwn(P_aba3), P_aba3, NoAfter(P_aba3)) }
+Cfg_sim == Cfg_quick \cup Cfg_3own \cup Cfg_tid
 
 \* hide the ghost event from the state identity
 View == <<cfg, ms, pc, L, H>>
